@@ -4654,6 +4654,11 @@ def unpickle_entity(d):
     obj._db_set_(avdict, unpickling=True)
     return obj
 
+def unpickle_entity_by_pk(entity, pkval):
+    # the attribute values follow as pickle state, see Entity.__setstate__ (unpickle_entity reads pickles of earlier versions)
+    cache = entity._database_._get_cache()
+    return entity._get_from_identity_map_(pkval, 'loaded')
+
 def safe_repr(obj):
     return Entity.__repr__(obj)
 
@@ -4723,10 +4728,17 @@ class Entity(object, metaclass=EntityMeta):
         if obj._status_ in ('created', 'modified'): throw(
             OrmError, '%s object %s has to be stored in DB before it can be pickled'
                       % (obj._status_.capitalize(), safe_repr(obj)))
-        d = {'__class__' : obj.__class__}
+        # related objects go into the state, not into the arguments: pickle writes the arguments before it memoises the object,
+        # so objects that refer to each other (both sides of a one-to-one) would recurse forever
+        state = {}
         for attr, val in obj._vals_.items():
-            if not attr.is_collection: d[attr.name] = val
-        return unpickle_entity, (d,)
+            if not attr.is_collection and attr.pk_offset is None: state[attr.name] = val
+        return unpickle_entity_by_pk, (obj.__class__, obj._pkval_), state
+    def __setstate__(obj, state):
+        cache = obj._session_cache_
+        if cache is None or not cache.is_alive: throw_db_session_is_over('unpickle', obj)
+        if obj._status_ in del_statuses: return
+        obj._db_set_({obj._adict_[attrname]: val for attrname, val in state.items()}, unpickling=True)
     @cut_traceback
     def __init__(obj, *args, **kwargs):
         obj._status_ = None
